@@ -99,6 +99,27 @@ def run(ck: Check):
                         ck.disagree("eval output times tau is not an integer count", case, observed=ye.tolist(),
                                     signature={"class": name, "what": "integral"})
                 coq_items.append((coqname, k, shape, shapes, case))
+    # a rare but documented combination of options passed through **llkw: a gradient factor on the padded architectures
+    for name, mk, shape, tau, residual, coqname in specs:
+        if name not in ("ClgnCifar10", "ClgnCifar10Res", "ClgnMnist", "DlgnMnist"):
+            continue
+        case = {"class": name, "k": 1, "grad_factor": 2.0, "temperature": 0.5}
+        ck.case(case, nontrivial=True, kind="options")
+        try:
+            torch.manual_seed(ck.seed)
+            model = mk(1, dict(device="cpu", grad_factor=2.0, temperature=0.5))
+            xb = (torch.rand(2, *shape) > 0.5).float().requires_grad_(True)
+            model.train()
+            y = model(xb)
+            y.sum().backward()
+            model.eval()
+            with torch.no_grad():
+                ye = model(xb.detach())
+            if list(ye.shape) != [2, 10] or not torch.isfinite(ye).all() or not torch.isfinite(y).all():
+                raise ValueError("non-finite or mis-shaped output")
+        except Exception as e:
+            ck.disagree("exported model class fails with a gradient factor / temperature passed through its keyword arguments", case,
+                        observed=repr(e)[:300], signature={"class": name, "what": "options"})
     # scales at which a comparison inside a constructor takes the other branch (reported by the translator): the real class there
     for cls, kwargs, shape in list(t_models.LAST_EXCEPTIONAL)[:6]:
         case = {"class": cls, "exceptional_scale": True, **{k_: v for k_, v in kwargs.items()}}
